@@ -5957,3 +5957,42 @@ func ruleDependenciesBaseIsTheArtifact(id string) func(*Checker) {
 		}
 	}
 }
+
+// ruleRestoreChmodUnconditional — the recorded mode is applied whatever mode is found.
+func ruleRestoreChmodUnconditional(id string) func(*Checker) {
+	return func(c *Checker) {
+		c.rule(id, "In the metadata restore of the unpack side (the functions of unpackinfo that call os.Chmod with the recorded mode), whether os.Chmod runs does not depend on a mode: no branch that decides it reads a FileMode (the recorded one, or what Stat/Lstat found). Unpack creates directories with MkdirAll(0755), which the umask narrows; `skip the chmod when the mode is already right` — already 0755, already a superset — leaves directories at whatever the umask gave, or wider than recorded.", 1)
+		p := c.P
+		n := 0
+		for _, fn := range p.Funcs {
+			if fn.Package() == nil || fn.Package().Pkg.Path() != p.PkgPath("unpackinfo") || fn.Blocks == nil {
+				continue
+			}
+			for _, ci := range callsTo(fn, func(o *types.Func) bool { return isFunc(o, "os", "Chmod") }) {
+				n++
+				bad := token.NoPos
+				for _, b := range fn.Blocks {
+					ifi, ok := b.Instrs[len(b.Instrs)-1].(*ssa.If)
+					if !ok {
+						continue
+					}
+					// the branch decides the call when one way on can still reach it and the other cannot
+					can := func(sx *ssa.BasicBlock) bool { return sx == ci.Block() || reachFromBlock(sx)[ci.Block()] }
+					if b == ci.Block() || can(b.Succs[0]) == can(b.Succs[1]) {
+						continue
+					}
+					for w := range p.backSlice(ifi.Cond, 0) {
+						if nt, ok := types.Unalias(w.Type()).(*types.Named); ok && nt.Obj().Name() == "FileMode" {
+							// the kind dispatch (IsDir / IsSymlink on the recorded type flag) is not a FileMode; this is
+							bad = ifi.Cond.Pos()
+						}
+					}
+				}
+				c.check(bad == token.NoPos, id, p.FuncName(fn), "os.Chmod not decided by a mode", p.Pos(ci.Pos()), "no branch on a FileMode decides whether the recorded mode is applied", "whether the recorded mode is applied depends on a test of a mode at "+p.Pos(bad)+": where the test says 'already right' the entry keeps what MkdirAll and the umask gave it")
+			}
+		}
+		if n == 0 {
+			c.anchorMissing(id, "os.Chmod in the restore functions of unpackinfo")
+		}
+	}
+}
